@@ -198,7 +198,101 @@ def run(cfg):
     normal_form_rules(R, lib, zs)
     window_rule(R, lib, zs)
     reserved_slot_rule(R, lib)
+    selector_rule(R, zs)
     return R
+
+
+# -- option independence: the two active selectors -------------------------------------------------------------------------
+
+def selector_rule(R, zs):
+    """ActiveSelectorBasic and ActiveSelectorInPlace are two implementations of one interface
+    (select_active_transitions).  Both are interpreted (E-SEQ, acv/aeval.py) on every abstract candidate list of the family
+    their caller establishes - sorted by transition time (_check_transitions_sorted runs just before), pairwise distinct
+    times, so the comparison against the match is non-decreasing along the list and at most one candidate sits exactly on
+    the match start, and at least one candidate at or before the match start (the anchor rule) - up to six candidates.
+    _compare_transition_to_match is abstracted to the status it returns (its own agreement with C++ is rule R1), date
+    tuples to ranks.  The selected transitions (by origin) and their final transition times must coincide."""
+    from .aeval import AEval, AObj, Raised
+    import itertools
+    R.rule('R5', 'ActiveSelectorBasic and ActiveSelectorInPlace select the same transitions with the same times on every sorted candidate list', floor=100)
+    START = 1000
+
+    def intr_compare(ev, recv, args):
+        return args[0].attrs['status']
+
+    def intr_cmp_tuple(ev, recv, args):
+        return (args[0] > args[1]) - (args[0] < args[1])
+    intr = {'_compare_transition_to_match': intr_compare, '_compare_date_tuple': intr_cmp_tuple,
+            'logging.info': lambda ev, r, a: None, 'info': lambda ev, r, a: None}
+    # the caller's precondition is part of the rule: it must still be established right before the selection
+    caller = zs.fn('ZoneSpecifier._find_transitions_from_named_match')
+    order = []
+    for s in walk_stmts(caller.body):
+        for e in all_exprs([s]):
+            if e.k == 'call' and e.a[0].endswith('_check_transitions_sorted'):
+                order.append(('sorted', s.loc))
+            elif e.k == 'call' and e.a[0].endswith('select_active_transitions'):
+                order.append(('select', s.loc))
+    c0 = 'ZoneSpecifier._find_transitions_from_named_match:sorted-before-select'
+    R.instance('R5', c0, caller.loc)
+    sel = [i for i, (k, _l) in enumerate(order) if k == 'select']
+    if not sel or not any(k == 'sorted' for k, _l in order[:sel[0]]):
+        R.violation('R5', c0, caller.loc, 'the candidate list is no longer checked to be sorted before select_active_transitions(): the family of inputs '
+                    'the two selectors are compared on is not the family they receive')
+        return
+
+    def run(cls, statuses):
+        ranks = {}
+        items = []
+        lo, mid, hi = 0, START, 2 * START
+        for i, st in enumerate(statuses):
+            if st < 0:
+                lo += 1
+                t = lo
+            elif st == 0:
+                t = START
+            elif st == 1:
+                mid += 1
+                t = mid
+            else:
+                hi += 1
+                t = hi
+            items.append(AObj({'status': st, 'transitionTime': t, 'originalTransitionTime': None, 'isActive': None}, oid='t%d' % i, cls='Transition'))
+        match = AObj({'startDateTime': START}, oid='match', cls='ZoneMatch')
+        ev = AEval(module=zs, intrinsics=intr)
+        try:
+            out = ev.call_function(cls + '.select_active_transitions', [list(items), match], recv=AObj({'debug': False}, cls=cls))
+        except Raised as r:
+            return ('raise', r.what[:60])
+        if not isinstance(out, list):
+            return ('?', repr(out))
+        return ('ok', tuple(sorted((o.oid, o.attrs['transitionTime']) for o in out)))
+
+    n = 0
+    diffs = []
+    for length in range(1, 7):
+        for statuses in itertools.combinations_with_replacement((-1, 0, 1, 2), length):
+            if statuses.count(0) > 1 or (statuses.count(-1) + statuses.count(0)) == 0:
+                continue
+            n += 1
+            a = run('ActiveSelectorBasic', statuses)
+            b = run('ActiveSelectorInPlace', statuses)
+            R.instance('R5', 'ActiveSelectorBasic~ActiveSelectorInPlace', zs.fn('ActiveSelectorBasic.select_active_transitions').loc)
+            if a != b:
+                diffs.append((statuses, a, b))
+    R.note('selector equivalence: %d abstract candidate lists compared' % n)
+    if diffs:
+        st, a, b = diffs[0]
+        R.violation('R5', 'ActiveSelectorBasic~ActiveSelectorInPlace', zs.fn('ActiveSelectorBasic.select_active_transitions').loc,
+                    'candidates with match statuses %s (sorted by time; status -1 before the match, 0 on its start, 1 inside, 2 after): the basic selector '
+                    'gives %s, the in-place selector %s  [(candidate, final transition time); %d = match start]; %d of %d lists differ: the result '
+                    'depends on the in_place_transitions option' % (list(st), _fmt_sel(a), _fmt_sel(b), START, len(diffs), n))
+
+
+def _fmt_sel(x):
+    if x[0] != 'ok':
+        return '%s(%s)' % x
+    return '[' + ', '.join('%s@%s' % p for p in x[1]) + ']'
 
 
 # -- recycled transition slots --------------------------------------------------------------------------------------------
@@ -664,6 +758,19 @@ SELFTEST = [
          find='      if (upperBound < untilDate) {\n        untilDate = upperBound;\n      }', replace='', rule='R1', construct='createMatch'),
     dict(id='python-lookup-stops-on-equal', file='tools/zonedb/zone_specifier.py', find='            if start_time > dt_time:\n                break', replace='            if start_time >= dt_time:\n                break', rule='R1-loop'),
     dict(id='cpp-normalise-only-whole-days', file='src/ace_time/ExtendedZoneProcessor.h', find='      while (dt->minutes < 0) {', replace='      while (dt->minutes <= -kOneDayAsMinutes) {', rule='R2'),
+    dict(id='python-basic-selector-adds-prior-despite-start', file='tools/zonedb/zone_specifier.py',
+         find="        if not results.get('startTransitionFound'):\n            prior_transition = results.get('latestPriorTransition')\n            if not prior_transition:\n                raise Exception(\n                    'Prior transition not found; should not happen')\n",
+         replace="        prior_transition = results.get('latestPriorTransition')\n        if prior_transition:\n", rule='R5'),
+    dict(id='python-inplace-selector-keeps-old-prior', file='tools/zonedb/zone_specifier.py',
+         find='            transition.isActive = True\n            if prior:\n                prior.isActive = False\n            prior = transition\n',
+         replace='            transition.isActive = True\n            prior = transition\n', rule='R5'),
+    dict(id='python-inplace-selector-shifts-start', file='tools/zonedb/zone_specifier.py',
+         find='        if prior and prior.transitionTime < match.startDateTime:', replace='        if prior:', expect='silent'),
+    dict(id='python-basic-selector-latest-is-earliest', file='tools/zonedb/zone_specifier.py',
+         find='                if transition_time > latest_prior_transition.transitionTime:', replace='                if transition_time < latest_prior_transition.transitionTime:', rule='R5'),
+    dict(id='python-inplace-selector-elif-order-silent', file='tools/zonedb/zone_specifier.py',
+         find='        if transition_compared_to_match == 2:\n            transition.isActive = False\n        elif transition_compared_to_match == 1:\n            transition.isActive = True\n        elif transition_compared_to_match == 0:',
+         replace='        if transition_compared_to_match == 1:\n            transition.isActive = True\n        elif transition_compared_to_match == 2:\n            transition.isActive = False\n        elif transition_compared_to_match == 0:', expect='silent'),
     dict(id='cpp-reserved-prior-not-cleared', file='src/ace_time/ExtendedZoneProcessor.h',
          find='      (*prior)->active = false; // indicates "no prior transition"\n', replace='', rule='R4'),
     dict(id='cpp-reserved-prior-cleared-inside-loop', file='src/ace_time/ExtendedZoneProcessor.h', regex=True,
